@@ -204,11 +204,11 @@ Definition phase (s : sys) (c : nat) (k : lc) : Prop :=
   | Connecting =>
       k_added k = false /\ k_ccb k = CbServer /\ nE = 1 /\ nR = 0 /\ nF = 0 /\
       first_life c (loop_todo s (k_loop k)) = Some LE /\
-      ((k_mapped k = true /\ nD = 0 /\ s_srv s = true) \/ (k_mapped k = false /\ nD = 1 /\ s_srv s = false))
+      ((k_mapped k = true /\ nD = 0 /\ s_srv s = true) \/ (k_mapped k = false /\ nD = 1))
   | Connected | Disconnecting =>
       k_added k = true /\ nE = 0 /\ nR = 0 /\
       ((k_mapped k = true /\ nD = 0 /\ owner_alive s c k) \/
-       (k_mapped k = false /\ nD = 1 /\ k_ccb k = CbServer /\ s_srv s = false /\
+       (k_mapped k = false /\ nD = 1 /\ k_ccb k = CbServer /\
         first_life c (loop_todo s (k_loop k)) = Some LD) \/
        (k_mapped k = false /\ nD = 0 /\ k_ccb k = CbDetail /\ (1 <= k_urefs k \/ 1 <= nF)))
   | Disconnected =>
@@ -715,10 +715,10 @@ Proof.
     destruct Hp as (H1 & H2 & H3 & H4).
     assert (Hgoal : k_added k = true /\ todoN (isE c) s = 0 /\ todoN (isR c) s = 0 /\
       (k_mapped k = true /\ todoN (isD c) s = 0 /\ match k_ccb k with CbServer => s_srv s = true | CbClient => s_cli s = true /\ s_cliconn s = Some c | CbDetail => False end \/
-       k_mapped k = false /\ todoN (isD c) s = 1 /\ k_ccb k = CbServer /\ s_srv s = false /\ first_life c (loop_todo s' (k_loop k)) = Some LD \/
+       k_mapped k = false /\ todoN (isD c) s = 1 /\ k_ccb k = CbServer /\ first_life c (loop_todo s' (k_loop k)) = Some LD \/
        k_mapped k = false /\ todoN (isD c) s = 0 /\ k_ccb k = CbDetail /\ (1 <= k_urefs k' \/ 1 <= todoN (isF c) s'))).
     { repeat (split; [assumption|]).
-      destruct H4 as [H4|[(A1 & A2 & A3 & A4 & A5)|(A1 & A2 & A3 & A4)]].
+      destruct H4 as [H4|[(A1 & A2 & A3 & A5)|(A1 & A2 & A3 & A4)]].
       - left. exact H4.
       - right. left. auto 10.
       - right. right. repeat (split; [assumption|]). destruct A4 as [A4|A4]; [apply Hu; auto; left; exact Ek|right; lia]. }
@@ -727,10 +727,10 @@ Proof.
     destruct Hp as (H1 & H2 & H3 & H4).
     assert (Hgoal : k_added k = true /\ todoN (isE c) s = 0 /\ todoN (isR c) s = 0 /\
       (k_mapped k = true /\ todoN (isD c) s = 0 /\ match k_ccb k with CbServer => s_srv s = true | CbClient => s_cli s = true /\ s_cliconn s = Some c | CbDetail => False end \/
-       k_mapped k = false /\ todoN (isD c) s = 1 /\ k_ccb k = CbServer /\ s_srv s = false /\ first_life c (loop_todo s' (k_loop k)) = Some LD \/
+       k_mapped k = false /\ todoN (isD c) s = 1 /\ k_ccb k = CbServer /\ first_life c (loop_todo s' (k_loop k)) = Some LD \/
        k_mapped k = false /\ todoN (isD c) s = 0 /\ k_ccb k = CbDetail /\ (1 <= k_urefs k' \/ 1 <= todoN (isF c) s'))).
     { repeat (split; [assumption|]).
-      destruct H4 as [H4|[(A1 & A2 & A3 & A4 & A5)|(A1 & A2 & A3 & A4)]].
+      destruct H4 as [H4|[(A1 & A2 & A3 & A5)|(A1 & A2 & A3 & A4)]].
       - left. exact H4.
       - right. left. auto 10.
       - right. right. repeat (split; [assumption|]). destruct A4 as [A4|A4]; [apply Hu; auto; right; exact Ek|right; lia]. }
@@ -1591,9 +1591,9 @@ Proof.
       change (todoN (isD c) s2) with (todoN (isD c) s1). change (todoN (isF c) s2) with (todoN (isF c) s1).
       change (s_srv s2) with (s_srv s). change (loop_todo s2 (k_loop k')) with (loop_todo s1 (k_loop k')).
       split; [reflexivity|]. split; [lia|]. split; [lia|].
-      destruct Hown as [(Hm & HD & Hs)|(Hm & HD & Hs)].
+      destruct Hown as [(Hm & HD & Hs)|(Hm & HD)].
       * left. rewrite Hm, Hcb. split; [reflexivity|]. split; [lia|exact Hs].
-      * right. left. rewrite Hm. split; [reflexivity|]. split; [lia|]. split; [exact Hcb|]. split; [exact Hs|].
+      * right. left. rewrite Hm. split; [reflexivity|]. split; [lia|]. split; [exact Hcb|].
         rewrite F6, Hl.
         assert (G1' : k_loop k <= s_nio s1) by (rewrite Hl in *; exact L1).
         assert (Hg1 : getc s1 c = Some k) by exact Hg.
@@ -1640,7 +1640,7 @@ Lemma ginv_put_nc s c0 k k0 : GInv s -> getc s c0 = Some k -> k_loop k0 = k_loop
 Proof. intros G Hg Hl Ha Hs Hn. apply (ginv_put s c0 k k0 G Hg Hl Ha Hs). intros Hc. contradiction. Qed.
 
 Definition clear_cli (s : sys) : sys :=
-  mkSys (s_nio s) (s_readd s) (s_conns s) (s_loops s) (s_rr s) (s_srv s) (s_cli s) None (s_calls s) (s_stop s).
+  mkSys (s_nio s) (s_readd s) (s_conns s) (s_loops s) (s_rr s) (s_srv s) (s_cli s) None (s_calls s) (s_dying s) (s_stop s).
 
 Lemma ginv_clear_cli s c k k0 : GInv s -> s_cliconn s = Some c -> getc s c = Some k ->
   k_loop k0 = k_loop k -> k_alive k0 = k_alive k -> (k_st k <> Connecting -> k_st k0 <> Connecting) ->
@@ -1837,19 +1837,19 @@ Proof.
                       (k_mapped k = false /\ todoN (isD c) s = 0 /\ k_ccb k = CbDetail)).
       { unfold phase in Hph.
         assert (Hb4 : k_mapped k = true /\ todoN (isD c) s = 0 /\ owner_alive s c k \/
-                k_mapped k = false /\ todoN (isD c) s = 1 /\ k_ccb k = CbServer /\ s_srv s = false /\ first_life c (loop_todo s (k_loop k)) = Some LD \/
+                k_mapped k = false /\ todoN (isD c) s = 1 /\ k_ccb k = CbServer /\ first_life c (loop_todo s (k_loop k)) = Some LD \/
                 k_mapped k = false /\ todoN (isD c) s = 0 /\ k_ccb k = CbDetail /\ (1 <= k_urefs k \/ 1 <= todoN (isF c) s))
           by (destruct Ecl as [E|E]; rewrite E in Hph; apply Hph).
-        destruct Hb4 as [B|[(_ & _ & _ & _ & B)|(B1 & B2 & B3 & _)]]; [left; exact B| |right; auto].
+        destruct Hb4 as [B|[(_ & _ & _ & B)|(B1 & B2 & B3 & _)]]; [left; exact B| |right; auto].
         exfalso. rewrite Hl, (loop_todo_pop s l v t rest Hv Hb) in B. cbn [first_life] in B. unfold life_of, t in B. cbn in B.
         rewrite Nat.eqb_refl in B. discriminate. }
       destruct Hcase as [(B1 & B2 & B3)|(B1 & B2 & B3)]; lia.
     + unfold phase in Hph.
       assert (Hb4 : k_mapped k = true /\ todoN (isD c) s = 0 /\ owner_alive s c k \/
-              k_mapped k = false /\ todoN (isD c) s = 1 /\ k_ccb k = CbServer /\ s_srv s = false /\ first_life c (loop_todo s (k_loop k)) = Some LD \/
+              k_mapped k = false /\ todoN (isD c) s = 1 /\ k_ccb k = CbServer /\ first_life c (loop_todo s (k_loop k)) = Some LD \/
               k_mapped k = false /\ todoN (isD c) s = 0 /\ k_ccb k = CbDetail /\ (1 <= k_urefs k \/ 1 <= todoN (isF c) s))
         by (destruct Ecl as [E|E]; rewrite E in Hph; apply Hph).
-      destruct Hb4 as [(B1 & _ & B3)|[(_ & _ & _ & _ & B)|(B1 & _ & B3 & _)]]; [left; auto| |right; auto].
+      destruct Hb4 as [(B1 & _ & B3)|[(_ & _ & _ & B)|(B1 & _ & B3 & _)]]; [left; auto| |right; auto].
       exfalso. rewrite Hl, (loop_todo_pop s l v t rest Hv Hb) in B. cbn [first_life] in B. unfold life_of, t in B. cbn in B.
       rewrite Nat.eqb_refl in B. discriminate.
     + cbn [app]. apply finish_ok, HI'.
@@ -1876,21 +1876,21 @@ Qed.
 Lemma phase_up_cases s c k : phase s c k -> up_k k ->
   k_added k = true /\ todoN (isE c) s = 0 /\ todoN (isR c) s = 0 /\
   ((k_mapped k = true /\ todoN (isD c) s = 0 /\ owner_alive s c k) \/
-   (k_mapped k = false /\ todoN (isD c) s = 1 /\ k_ccb k = CbServer /\ s_srv s = false /\
+   (k_mapped k = false /\ todoN (isD c) s = 1 /\ k_ccb k = CbServer /\
     first_life c (loop_todo s (k_loop k)) = Some LD) \/
    (k_mapped k = false /\ todoN (isD c) s = 0 /\ k_ccb k = CbDetail /\ (1 <= k_urefs k \/ 1 <= todoN (isF c) s))).
 Proof. unfold phase. intros H [E|E]; rewrite E in H; exact H. Qed.
 
 Lemma ev_close s c k : Inv0 s -> getc s c = Some k -> k_alive k = true -> up_k k ->
-  (match k_ccb k with CbServer => negb (s_srv s) | CbClient => negb (s_cli s) | CbDetail => false end) = false ->
+  (match k_ccb k with CbServer => negb (s_srv s) || negb (k_mapped k) | CbClient => negb (s_cli s) | CbDetail => false end) = false ->
   match finish (handle_close s (k_loop k) c) (k_loop k) with Ok (s', _) => Inv s' | Rejected => True | Fault => False end.
 Proof.
   intros HI Hg Ha Hup Horph. pose proof (proj2 HI c k Hg) as HCk.
   destruct (phase_up_cases s c k (ci_phase s c k HCk Ha) Hup) as (Hadd & HE & HR & Hcase).
   destruct (ci_loop s c k HCk) as [L1 L2]. destruct (ci_dtor s c k HCk) as [D1 D2]. rewrite Ha in D1.
   assert (HD : todoN (isD c) s = 0 /\ ((k_mapped k = true /\ owner_alive s c k) \/ (k_mapped k = false /\ k_ccb k = CbDetail))).
-  { destruct Hcase as [(B1 & B2 & B3)|[(B1 & B2 & B3 & B4 & _)|(B1 & B2 & B3 & _)]]; auto.
-    exfalso. rewrite B3, B4 in Horph. discriminate. }
+  { destruct Hcase as [(B1 & B2 & B3)|[(B1 & B2 & B3 & _)|(B1 & B2 & B3 & _)]]; auto.
+    exfalso. rewrite B3, B1, orb_true_r in Horph. discriminate. }
   destruct HD as [HD Hown].
   destruct (handle_close_inv s (k_loop k) c k (invx_of_inv0 s c HI) Hg Ha Hup eq_refl L1 L2 Hadd (ci_cnt s c k HCk Ha)) as (s' & -> & HI');
     auto; try lia.
@@ -1904,7 +1904,7 @@ Proof.
   destruct (k_alive k && k_added k && k_inset k && loop_idle s (k_loop k)) eqn:Epre; [|exact I]. cbn [negb].
   apply andb_prop in Epre as [Epre _]. apply andb_prop in Epre as [Epre Hins]. apply andb_prop in Epre as [Ha Hadd].
   pose proof (proj2 HI c k Hg) as HCk.
-  set (orphan := match k_ccb k with CbServer => negb (s_srv s) | CbClient => negb (s_cli s) | CbDetail => false end).
+  set (orphan := match k_ccb k with CbServer => negb (s_srv s) || negb (k_mapped k) | CbClient => negb (s_cli s) | CbDetail => false end).
   destruct e.
   - destruct (k_rd k); [|exact I]. apply finish_ok, HI.
   - destruct (k_rd k) eqn:Erd; [|exact I]. cbn [andb]. destruct orphan eqn:Eo; [exact I|].
@@ -2163,13 +2163,11 @@ Qed.
 
 (* ---- the pool's tear-down ------------------------------------------------------------------------------ *)
 (* connectEstablished / connectDestroyed: the functors ~TcpServer and TcpServer::newConnection hand to an io loop *)
-Definition noED (t : task) : bool := match t with TEstablish _ | TDestroy _ => false | _ => true end.
+Notation noED := no_handoff (only parsing).
 
-(* once the server object is gone, an io loop that is inside a drain has no hand-off behind the batch
-   (under H7 the loops were in poll() when ~TcpServer queued its hand-offs, and nothing queues one afterwards) *)
+(* the pool's tear-down has begun only when the server object is gone, and then no removeConnectionInLoop hop exists *)
 Definition QInv (s : sys) : Prop :=
   (s_stop s <> 0 -> s_srv s = false) /\
-  (s_srv s = false -> forall l v, l <> 0 -> getl s l = Some v -> q_idle v = false -> forallb noED (q_pend v) = true) /\
   (s_srv s = false -> has_task is_remove s = false).
 
 Lemma quitting_spec s l : quitting s l = true -> l <> 0 /\ s_stop s = l.
@@ -2210,11 +2208,11 @@ Proof.
   destruct (k_st k).
   - destruct Hp as (A1 & A2 & A3 & A4 & A5 & A6 & A7). repeat (split; [assumption || lia|]).
     split; [|exact A7]. destruct Hfl as [E|[N _]]; [rewrite E; exact A6|congruence].
-  - destruct Hp as (A1 & A2 & A3 & [B|[(B1 & B2 & B3 & B4 & B5)|(B1 & B2 & B3 & B4)]]); repeat (split; [assumption|]).
+  - destruct Hp as (A1 & A2 & A3 & [B|[(B1 & B2 & B3 & B5)|(B1 & B2 & B3 & B4)]]); repeat (split; [assumption|]).
     + left. exact B.
     + right. left. repeat (split; [assumption|]). destruct Hfl as [E|[_ N]]; [rewrite E; exact B5|congruence].
     + right. right. repeat (split; [assumption|]). rewrite (HFd B3). exact B4.
-  - destruct Hp as (A1 & A2 & A3 & [B|[(B1 & B2 & B3 & B4 & B5)|(B1 & B2 & B3 & B4)]]); repeat (split; [assumption|]).
+  - destruct Hp as (A1 & A2 & A3 & [B|[(B1 & B2 & B3 & B5)|(B1 & B2 & B3 & B4)]]); repeat (split; [assumption|]).
     + left. exact B.
     + right. left. repeat (split; [assumption|]). destruct Hfl as [E|[_ N]]; [rewrite E; exact B5|congruence].
     + right. right. repeat (split; [assumption|]). rewrite (HFd B3). exact B4.
@@ -2276,15 +2274,15 @@ Qed.
    leaves loop() here *)
 Lemma step_EndBatch s l : Inv s -> QInv s -> step_ok s (EndBatch l).
 Proof.
-  intros [HI HH] (Q1 & Q2 & _). unfold step_ok, step. destruct (getl s l) as [v|] eqn:Ev; [|exact I].
+  intros [HI HH] (Q1 & _). unfold step_ok, step. destruct (getl s l) as [v|] eqn:Ev; [|exact I].
   destruct (q_batch v) eqn:Eb; [|exact I]. destruct (q_drain v) eqn:Edr; [|exact I]. cbn [negb].
   destruct (quitting s l) eqn:Eq.
   - (* the loop exits *)
-    destruct (true && outlived s l); [exact I|]. cbn [ret]. apply finish_ok.
+    cbn [andb]. destruct (forallb no_handoff (q_pend v)) eqn:Eno; [|exact I]. cbn [negb].
+    destruct (outlived s l); [exact I|]. cbn [ret]. apply finish_ok.
     destruct (quitting_spec s l Eq) as [Hl0 Hst].
     change (set_loops s (upd (s_loops s) l (mkLq [] [] [] false))) with (set_loop s l (mkLq [] [] [] false)).
-    apply set_stop_inv0. apply (exit_inv0 s l v HI Ev Hl0 Eb).
-    apply (Q2 (Q1 ltac:(lia)) l v Hl0 Ev). unfold q_idle. rewrite Eb, Edr. destruct (q_spent v); reflexivity.
+    apply set_stop_inv0. apply (exit_inv0 s l v HI Ev Hl0 Eb). exact Eno.
   - apply finish_ok. fold (set_loop s l (mkLq (q_pend v) [] [] false)).
     destruct HI as [G HC]. split.
     + apply (ginv_set_loop s l v _ G Ev). intros x Hx. left. unfold q_all in *. cbn [q_pend q_batch q_spent] in Hx.
@@ -2314,7 +2312,7 @@ Qed.
 
 (* ---- creating a connection -------------------------------------------------------------------------- *)
 Definition add_conn (s : sys) (k : lc) (rr : nat) (cc : option nat) : sys :=
-  mkSys (s_nio s) (s_readd s) (s_conns s ++ [k]) (s_loops s) rr (s_srv s) (s_cli s) cc (s_calls s) (s_stop s).
+  mkSys (s_nio s) (s_readd s) (s_conns s ++ [k]) (s_loops s) rr (s_srv s) (s_cli s) cc (s_calls s) (s_dying s) (s_stop s).
 
 Lemma no_task_about_new s p : GInv s ->
   (forall t, p t = true -> t <> TOther /\ task_conn t = length (s_conns s)) ->
@@ -2387,7 +2385,7 @@ Proof.
   set (rr := if s_nio s =? 0 then 0 else if S (s_rr s) <? s_nio s then S (s_rr s) else 0).
   set (c := length (s_conns s)). set (k0 := fresh io CbServer).
   fold (add_conn s k0 rr (s_cliconn s)). set (s1 := add_conn s k0 rr (s_cliconn s)).
-  destruct (s_srv s) eqn:Hsrv; [|exact I]. cbn [negb].
+  destruct (s_srv s) eqn:Hsrv; [|exact I]. cbn [negb orb]. destruct (s_dying s); [exact I|].
   assert (Hio : io <= s_nio s).
   { unfold io. destruct (s_nio s =? 0) eqn:E; [lia|]. apply Nat.eqb_neq in E. destruct (gi_rr s G); lia. }
   assert (Hrr : s_nio s = 0 \/ rr < s_nio s).
@@ -2522,9 +2520,9 @@ Proof.
 Qed.
 
 Lemma ginv_cli_off s : GInv s -> forall cs ls, length ls = length (s_loops s) ->
-  (forall l v t, nth_error ls l = Some v -> In t (q_all v) -> placed (mkSys (s_nio s) (s_readd s) cs ls (s_rr s) (s_srv s) false None (s_calls s) (s_stop s)) l t) ->
+  (forall l v t, nth_error ls l = Some v -> In t (q_all v) -> placed (mkSys (s_nio s) (s_readd s) cs ls (s_rr s) (s_srv s) false None (s_calls s) (s_dying s) (s_stop s)) l t) ->
   (forall a, In a (s_calls s) -> exists k, nth_error cs (a_conn a) = Some k /\ k_alive k = true /\ k_st k <> Connecting /\ a_api a <> ADtor) ->
-  GInv (mkSys (s_nio s) (s_readd s) cs ls (s_rr s) (s_srv s) false None (s_calls s) (s_stop s)).
+  GInv (mkSys (s_nio s) (s_readd s) cs ls (s_rr s) (s_srv s) false None (s_calls s) (s_dying s) (s_stop s)).
 Proof.
   intros [G1 Gr G2 [G3 G3'] G4] cs ls Hlen Hpl Hcalls. constructor; cbn; auto.
   - congruence.
@@ -2551,7 +2549,7 @@ Proof.
     assert (Hfinal : forall ls kf, length ls = length (s_loops s) ->
               (forall l v t, nth_error ls l = Some v -> In t (q_all v) ->
                  (exists v', getl s l = Some v' /\ In t (q_all v')) \/ t = TForceClose c /\ l = 0) ->
-              (forall c1, c1 <> c -> same_for s (mkSys (s_nio s) (s_readd s) (upd (s_conns s) c kf) ls (s_rr s) (s_srv s) false None (s_calls s) (s_stop s)) c1) ->
+              (forall c1, c1 <> c -> same_for s (mkSys (s_nio s) (s_readd s) (upd (s_conns s) c kf) ls (s_rr s) (s_srv s) false None (s_calls s) (s_dying s) (s_stop s)) c1) ->
               same_core (set_own kf CbDetail false (k_urefs k) (k_delayed k)) kf ->
               (k_st kf = k_st k \/ k_st kf = Disconnecting) -> k_wr kf = k_wr k -> k_rd kf = k_rd k -> k_added kf = true ->
               k_pidx kf = k_pidx k -> k_loop kf = 0 -> k_alive kf = true -> k_ups kf = k_ups k -> k_downs kf = k_downs k ->
@@ -2559,11 +2557,11 @@ Proof.
               (1 <= k_urefs k \/ 1 <= sumq (fun l => cnt (isF c) (q_todo l)) ls) ->
               sumq (fun l => cnt (isE c) (q_todo l)) ls = 0 -> sumq (fun l => cnt (isR c) (q_todo l)) ls = 0 ->
               sumq (fun l => cnt (isD c) (q_todo l)) ls = 0 ->
-              Inv0 (mkSys (s_nio s) (s_readd s) (upd (s_conns s) c kf) ls (s_rr s) (s_srv s) false None (s_calls s) (s_stop s))).
+              Inv0 (mkSys (s_nio s) (s_readd s) (upd (s_conns s) c kf) ls (s_rr s) (s_srv s) false None (s_calls s) (s_dying s) (s_stop s))).
     { intros ls kf Hlen Htasks Hfr Hcore Hst E2 E3 E4 E5 E6 E7 E11 E12 E13 E14 Hhold NE NR ND.
       destruct Hcore as (C1 & C2 & C3 & C4 & C5 & C6 & C7 & C8 & C9 & C10 & _). cbn [set_own k_ccb k_mapped k_urefs] in C8, C9, C10.
       assert (Hupf : up_k kf) by (destruct Hst as [E|E]; [unfold up_k; rewrite E; exact Hup|right; exact E]).
-      set (s' := mkSys (s_nio s) (s_readd s) (upd (s_conns s) c kf) ls (s_rr s) (s_srv s) false None (s_calls s) (s_stop s)).
+      set (s' := mkSys (s_nio s) (s_readd s) (upd (s_conns s) c kf) ls (s_rr s) (s_srv s) false None (s_calls s) (s_dying s) (s_stop s)).
       assert (Hext : conns_ext s s').
       { split; [unfold s'; cbn; rewrite length_upd; lia|]. intros c1 k1 Hk1. destruct (Nat.eq_dec c c1) as [<-|Hn].
         - exists kf. unfold getc, s'. cbn. rewrite nth_upd_eq by exact Hlt. split; [reflexivity|]. split; [congruence|].
@@ -2686,24 +2684,15 @@ Proof.
   change (s_cli (set_srv s false)) with (s_cli s). change (s_cliconn (set_srv s false)) with (s_cliconn s).
   change (s_srv (set_srv s false)) with false. rewrite Hsrv in Hph.
   destruct (k_st k).
-  - exfalso. destruct Hph as (_ & Hcb & _ & _ & _ & _ & [(Hm & _)|(_ & _ & Hx)]); [apply Hnot; auto|discriminate].
-  - destruct Hph as (A1 & A2 & A3 & [(B1 & B2 & B3)|[(_ & _ & _ & Hx & _)|B]]); [|discriminate|auto 10].
+  - destruct Hph as (A1 & Hcb & A3 & A4 & A5 & A6 & [(Hm & _)|B]); [exfalso; apply Hnot; auto|]. auto 10.
+  - destruct Hph as (A1 & A2 & A3 & [(B1 & B2 & B3)|[B|B]]); [|auto 10|auto 10].
     repeat (split; [assumption|]). left. repeat (split; [assumption|]).
     destruct (k_ccb k) eqn:E; [exfalso; apply Hnot; auto|exact B3|exact B3].
-  - destruct Hph as (A1 & A2 & A3 & [(B1 & B2 & B3)|[(_ & _ & _ & Hx & _)|B]]); [|discriminate|auto 10].
+  - destruct Hph as (A1 & A2 & A3 & [(B1 & B2 & B3)|[B|B]]); [|auto 10|auto 10].
     repeat (split; [assumption|]). left. repeat (split; [assumption|]).
     destruct (k_ccb k) eqn:E; [exfalso; apply Hnot; auto|exact B3|exact B3].
   - destruct Hph as (A1 & [(_ & _ & Hx & _)|B]); [lia|]. split; [exact A1|]. right. exact B.
 Qed.
-
-Lemma same_for_srv s s' c : same_for s s' c -> same_for (set_srv s false) (set_srv s' false) c.
-Proof. intros []. constructor; auto. Qed.
-
-(* the invariant inside ~TcpServer's loop: connections below c are already as they will be once
-   the server object is gone, the others are untouched *)
-Definition SInv (s : sys) (c : nat) : Prop :=
-  GInv s /\ s_srv s = true /\ has_task is_remove s = false /\ has_task is_force s = false /\
-  forall c1 k1, getc s c1 = Some k1 -> (c1 < c -> CInv (set_srv s false) c1 k1) /\ (c <= c1 -> CInv s c1 k1).
 
 Lemma has_task_enq s l t p : has_task p s = false -> p t = false -> has_task p (enq s l t) = false.
 Proof.
@@ -2720,13 +2709,37 @@ Proof.
     apply existsb_exists. exists w. split; [eapply nth_error_In, Hj|exact Hex].
 Qed.
 
-Lemma srv_destroy_step s c k : SInv s c -> getc s c = Some k -> k_alive k = true -> k_ccb k = CbServer -> k_mapped k = true ->
-  exists s' o, (let s1 := put s c (unmapped k) in
-                if k_loop k =? 0 then connect_destroyed s1 0 c else ret (enq s1 (k_loop k) (TDestroy c))) = Ok (s', o) /\
-               SInv s' (S c) /\ length (s_conns s') = length (s_conns s).
+
+Lemma set_dying_inv0 s b : Inv0 s -> Inv0 (set_dying s b).
 Proof.
-  intros (G & Hsrv & Hnr & Hnf & HC) Hg Ha Hcb Hm. cbv zeta.
-  pose proof (proj2 (HC c k Hg) (Nat.le_refl c)) as HCk.
+  intros [[G1 Gr G2 G3 G4] HC]. split; [constructor; auto|].
+  intros c k Hg. destruct (HC c k Hg) as [Hl Hi Hc Hp Hph Hd Hds Hdt]. constructor; auto.
+Qed.
+
+Lemma next_entry_some cs : forall c0 c, next_entry cs c0 = Some c -> exists k, nth_error cs (c - c0) = Some k /\ is_entry k = true /\ c0 <= c.
+Proof.
+  induction cs as [|x cs IH]; intros c0 c H; [discriminate|]. cbn [next_entry] in H. destruct (is_entry x) eqn:E.
+  - injection H as <-. exists x. rewrite Nat.sub_diag. auto.
+  - destruct (IH (S c0) c H) as (k & Hk & He & Hle). exists k. replace (c - c0) with (S (c - S c0)) by lia. auto with arith.
+Qed.
+
+Lemma next_entry_none cs : forall c0, next_entry cs c0 = None -> forall i k, nth_error cs i = Some k -> is_entry k = false.
+Proof.
+  induction cs as [|x cs IH]; intros c0 H i k Hi; [destruct i; discriminate|]. cbn [next_entry] in H. destruct (is_entry x) eqn:E; [discriminate|].
+  destruct i; cbn in Hi; [injection Hi as <-; exact E|apply (IH (S c0) H i k Hi)].
+Qed.
+
+Lemma is_entry_spec k : is_entry k = true <-> (k_alive k = true /\ k_ccb k = CbServer /\ k_mapped k = true).
+Proof. unfold is_entry. destruct (k_ccb k), (k_mapped k), (k_alive k); cbn; intuition congruence. Qed.
+
+(* one iteration of ~TcpServer's loop: the server object is alive, no hop and no forced close is queued *)
+Lemma srv_hand_inv s c k : Inv0 s -> s_srv s = true -> has_task is_remove s = false -> has_task is_force s = false ->
+  getc s c = Some k -> k_alive k = true -> k_ccb k = CbServer -> k_mapped k = true ->
+  exists s' o, (let s1 := put s c (unmapped k) in
+                if k_loop k =? 0 then connect_destroyed s1 0 c else ret (enq s1 (k_loop k) (TDestroy c))) = Ok (s', o) /\ Inv0 s'.
+Proof.
+  intros [G HC] Hsrv Hnr Hnf Hg Ha Hcb Hm. cbv zeta.
+  pose proof (HC c k Hg) as HCk.
   pose proof (ci_phase s c k HCk Ha) as Hph.
   destruct (ci_loop s c k HCk) as [L1 L2]. destruct (ci_dtor s c k HCk) as [D1 D2]. rewrite Ha in D1.
   assert (Hlt : c < length (s_conns s)) by (eapply getc_lt, Hg).
@@ -2753,16 +2766,9 @@ Proof.
     - right. split; [right; exact Est|apply Hph].
     - exfalso. destruct Hph as (_ & [(_ & _ & Hx & _)|[(_ & Hx & _)|(_ & Hx & _)]]); [lia|congruence|congruence]. }
   (* frame and the untouched connections *)
-  assert (Hrest : forall s', GInv s' -> has_task is_remove s' = false -> has_task is_force s' = false -> s_srv s' = true ->
-            (forall c1, c1 <> c -> getc s' c1 = getc s c1 /\ same_for s s' c1) ->
-            (forall k', getc s' c = Some k' -> CInv (set_srv s' false) c k') -> SInv s' (S c)).
-  { intros s' G' Hnr' Hnf' Hsrv' Hfr Hc'. split; [exact G'|]. split; [exact Hsrv'|]. split; [exact Hnr'|]. split; [exact Hnf'|].
-    intros c1 k1 Hg1'. destruct (Nat.eq_dec c1 c) as [->|Hn].
-    - split; [intros _; apply Hc', Hg1'|lia].
-    - destruct (Hfr c1 Hn) as [A B]. rewrite A in Hg1'. destruct (HC c1 k1 Hg1') as [H1 H2]. split.
-      + intros Hx. apply (same_for_cinv (set_srv s false) (set_srv s' false) c1 k1 (same_for_srv s s' c1 B)); [exact Hg1'| |apply H1; lia].
-        change (getc (set_srv s' false) c1) with (getc s' c1). rewrite A. exact Hg1'.
-      + intros Hx. apply (same_for_cinv s s' c1 k1 B Hg1'); [rewrite A; exact Hg1'|apply H2; lia]. }
+  assert (Hrest : forall s', GInv s' -> (forall c1, c1 <> c -> getc s' c1 = getc s c1 /\ same_for s s' c1) ->
+            (forall k', getc s' c = Some k' -> CInv s' c k') -> Inv0 s').
+  { intros s' G' Hfr Hc'. apply (inv0_frame s s' c (conj G HC) G' Hfr Hc'). }
   destruct (k_loop k =? 0) eqn:El0.
   - (* the acceptor loop is the connection's loop: connectDestroyed runs inline *)
     apply Nat.eqb_eq in El0. destruct Hcases as [(_ & Hx)|(Hup & Hadd)]; [congruence|].
@@ -2778,14 +2784,11 @@ Proof.
     unfold chan_remove, k_none. rewrite F2, F3. cbn [orb negb].
     destruct (pidx_eqb (k_pidx k1) PNew) eqn:Ep; [destruct (k_pidx k1); try discriminate; congruence|].
     cbn [emit]. set (k2 := set_chan k1 false false false PNew). unfold s1. rewrite put_put.
-    eexists _, _. split; [reflexivity|]. split; [|apply length_conns_put].
+    eexists _, _. split; [reflexivity|].
     apply Hrest.
     + apply (ginv_put_nc s c k k2 G Hg); cbn; try congruence.
-    + exact Hnr.
-    + exact Hnf.
-    + exact Hsrv.
     + intros c1 Hn. split; [apply getc_put_neq; auto|apply same_for_put].
-    + intros k' Hk'. change (getc (set_srv (put s c k2) false) c) with (getc (put s c k2) c) in *.
+    + intros k' Hk'. change (getc (put s c k2) c) with (getc (put s c k2) c) in *.
       rewrite getc_put_eq in Hk' by exact Hlt. injection Hk' as <-.
       pose proof (ci_cnt s c k HCk Ha) as Hc. unfold counters_ok in Hc.
       apply cinv_build; cbn [k2 set_chan k_alive k_loop k_ccb k_wr k_rd k_dtors k_closes k_st k_ups k_downs]; try congruence; auto.
@@ -2793,33 +2796,30 @@ Proof.
       * unfold counters_ok. cbn. rewrite F1, F13, F14. destruct Hup as [E|E]; rewrite E in Hc; lia.
       * unfold poller_ok, k_none. cbn. split; [tauto|discriminate].
       * unfold phase. cbn [k2 set_chan k_st k_added k_mapped k_ccb]. rewrite F1.
-        change (todoN (isE c) (set_srv (put s c k2) false)) with (todoN (isE c) s).
-        change (todoN (isR c) (set_srv (put s c k2) false)) with (todoN (isR c) s).
-        change (todoN (isD c) (set_srv (put s c k2) false)) with (todoN (isD c) s).
+        change (todoN (isE c) (put s c k2)) with (todoN (isE c) s).
+        change (todoN (isR c) (put s c k2)) with (todoN (isR c) s).
+        change (todoN (isD c) (put s c k2)) with (todoN (isD c) s).
         destruct (phase_up_cases s c k Hph Hup) as (_ & HE & _ & [(_ & HD & _)|[(B & _)|(B & _)]]); try congruence.
         split; [exact HE|]. right. right. rewrite F9. auto.
   - (* an io loop: connectDestroyed is queued there *)
     apply Nat.eqb_neq in El0. cbn [ret]. set (t := TDestroy c). set (s2 := enq s1 (k_loop k) t).
     destruct (getl_valid s (k_loop k) G L1) as [v Hv]. assert (Hv1 : getl s1 (k_loop k) = Some v) by exact Hv.
     destruct (enq_fields s1 (k_loop k) t) as (N1 & N2 & N3 & N4 & N5 & N6).
-    exists s2, []. split; [reflexivity|]. split; [|unfold s2; rewrite conns_enq; apply length_conns_put].
+    exists s2, []. split; [reflexivity|].
     apply Hrest.
     + apply ginv_enq; [exact G1|]. split; [reflexivity|]. split; [intros ?; split; [intros Hx; discriminate Hx|discriminate]|]. exists ku. split; [exact Hg1|]. split; [reflexivity|discriminate].
-    + apply has_task_enq; [exact Hnr|reflexivity].
-    + apply has_task_enq; [exact Hnf|reflexivity].
-    + unfold s2. rewrite N3. exact Hsrv.
     + intros c1 Hn. split; [unfold s2; rewrite getc_enq; apply getc_put_neq; auto|].
       apply same_for_put_enq; [exact Hn|]. cbn. apply Nat.eqb_refl.
-    + intros k' Hk'. change (getc (set_srv s2 false) c) with (getc s2 c) in Hk'. unfold s2 in Hk'. rewrite getc_enq, Hg1 in Hk'. injection Hk' as <-.
+    + intros k' Hk'. change (getc s2 c) with (getc s2 c) in Hk'. unfold s2 in Hk'. rewrite getc_enq, Hg1 in Hk'. injection Hk' as <-.
       apply cinv_build; cbn [ku unmapped set_own k_alive k_loop k_ccb k_wr k_rd k_dtors k_closes]; try congruence; auto.
-      * change (s_nio (set_srv s2 false)) with (s_nio s2). unfold s2. rewrite N1. exact L1.
+      * change (s_nio s2) with (s_nio s2). unfold s2. rewrite N1. exact L1.
       * apply (ci_idle s c k HCk Ha).
       * apply (ci_cnt s c k HCk Ha).
-      * change (s_readd (set_srv s2 false)) with (s_readd s2). unfold s2. rewrite N2. apply (ci_poll s c k HCk Ha).
+      * change (s_readd s2) with (s_readd s2). unfold s2. rewrite N2. apply (ci_poll s c k HCk Ha).
       * unfold phase. cbn [ku unmapped set_own k_st k_added k_mapped k_ccb k_loop k_urefs].
-        change (todoN (isE c) (set_srv s2 false)) with (todoN (isE c) s2). change (todoN (isR c) (set_srv s2 false)) with (todoN (isR c) s2).
-        change (todoN (isD c) (set_srv s2 false)) with (todoN (isD c) s2). change (todoN (isF c) (set_srv s2 false)) with (todoN (isF c) s2).
-        change (loop_todo (set_srv s2 false) (k_loop k)) with (loop_todo s2 (k_loop k)). change (s_srv (set_srv s2 false)) with false.
+        change (todoN (isE c) s2) with (todoN (isE c) s2). change (todoN (isR c) s2) with (todoN (isR c) s2).
+        change (todoN (isD c) s2) with (todoN (isD c) s2). change (todoN (isF c) s2) with (todoN (isF c) s2).
+        change (loop_todo s2 (k_loop k)) with (loop_todo s2 (k_loop k)).
         unfold s2. rewrite (todoN_enq (isE c) s1 _ t v Hv1), (todoN_enq (isR c) s1 _ t v Hv1), (todoN_enq (isD c) s1 _ t v Hv1),
                            (todoN_enq (isF c) s1 _ t v Hv1), (loop_todo_enq_eq s1 _ t v Hv1).
         unfold t. cbn [isE isR isD isF]. rewrite Nat.eqb_refl.
@@ -2831,8 +2831,8 @@ Proof.
            repeat (split; [assumption || lia|]). split; [apply first_life_app_some, A6|]. right. repeat split; auto; lia.
         -- destruct (phase_up_cases s c k Hph Hup) as (_ & HE & _ & [(_ & HD & _)|[(B & _)|(B & _)]]); try congruence.
            assert (Hgoal : k_added k = true /\ todoN (isE c) s + 0 = 0 /\ todoN (isR c) s + 0 = 0 /\
-             (false = true /\ todoN (isD c) s + 1 = 0 /\ owner_alive (set_srv s2 false) c ku \/
-              false = false /\ todoN (isD c) s + 1 = 1 /\ k_ccb k = CbServer /\ false = false /\
+             (false = true /\ todoN (isD c) s + 1 = 0 /\ owner_alive s2 c ku \/
+              false = false /\ todoN (isD c) s + 1 = 1 /\ k_ccb k = CbServer /\
                 first_life c (loop_todo s (k_loop k) ++ [TDestroy c]) = Some LD \/
               false = false /\ todoN (isD c) s + 1 = 0 /\ k_ccb k = CbDetail /\ (1 <= k_urefs k \/ 1 <= todoN (isF c) s + 0))).
            { split; [exact Hadd|]. split; [lia|]. split; [lia|]. right. left. repeat (split; [reflexivity || lia || assumption|]).
@@ -2844,48 +2844,26 @@ Proof.
            unfold owner_alive in *. destruct Hup as [E|E]; rewrite E; exact Hgoal.
 Qed.
 
-Lemma srv_destroy_from_inv n : forall s c, SInv s c -> length (s_conns s) <= c + n ->
-  exists s' o, srv_destroy_from s n c = Ok (s', o) /\ Inv0 (set_srv s' false).
-Proof.
-  induction n as [|n IH]; intros s c HS Hlen.
-  - cbn [srv_destroy_from ret]. exists s, []. split; [reflexivity|].
-    destruct HS as (G & Hsrv & _ & _ & HC). split.
-    + destruct G as [G1 Gr G2 G3 G4]. constructor; auto.
-    + intros c1 k1 Hg. change (getc (set_srv s false) c1) with (getc s c1) in Hg.
-      apply (proj1 (HC c1 k1 Hg)). apply getc_lt in Hg. lia.
-  - cbn [srv_destroy_from]. destruct (getc s c) as [k|] eqn:Hg.
-    + assert (Hskip : SInv s (S c) \/ (k_alive k = true /\ k_ccb k = CbServer /\ k_mapped k = true)).
-      { destruct (k_alive k) eqn:Ha; destruct (k_ccb k) eqn:Ecb; destruct (k_mapped k) eqn:Em; auto.
-        all: left; destruct HS as (G & Hsrv & Hnr & Hnf & HC); split; [exact G|]; split; [exact Hsrv|]; split; [exact Hnr|]; split; [exact Hnf|];
-          intros c1 k1 Hg1; destruct (HC c1 k1 Hg1) as [H1 H2]; split; [|intros Hx; apply H2; lia];
-          intros Hx; destruct (Nat.eq_dec c1 c) as [->|Hn]; [|apply H1; lia];
-          rewrite Hg in Hg1; injection Hg1 as <-;
-          apply cinv_srv_off; [apply H2; lia|exact Hsrv|apply (has_task_false s is_remove (isR c) Hnr (isR_remove c))|];
-          intros (A & B & C); congruence. }
-      destruct (k_ccb k) eqn:Ecb.
-      * destruct (k_mapped k && k_alive k) eqn:Ema.
-        -- apply andb_prop in Ema as [Em Ha].
-           destruct (srv_destroy_step s c k HS Hg Ha Ecb Em) as (s1 & o1 & E1 & HS1 & Hl1). cbv zeta in E1. unfold unmapped in E1. rewrite Ecb in E1.
-           rewrite E1. destruct (IH s1 (S c) HS1) as (s2 & o2 & E2 & HI2); [lia|]. cbn [bind]. rewrite E2. eauto.
-        -- destruct Hskip as [HS1|(A & B & C)]; [|rewrite A, C in Ema; discriminate]. apply (IH s (S c) HS1). lia.
-      * destruct Hskip as [HS1|(A & B & C)]; [|congruence]. apply (IH s (S c) HS1). lia.
-      * destruct Hskip as [HS1|(A & B & C)]; [|congruence]. apply (IH s (S c) HS1). lia.
-    + cbn [ret]. exists s, []. split; [reflexivity|]. destruct HS as (G & Hsrv & _ & _ & HC). split.
-      * destruct G as [G1 Gr G2 G3 G4]. constructor; auto.
-      * intros c1 k1 Hg1. change (getc (set_srv s false) c1) with (getc s c1) in Hg1.
-        apply (proj1 (HC c1 k1 Hg1)). unfold getc in Hg. apply nth_error_None in Hg. apply getc_lt in Hg1. lia.
-Qed.
 
 Lemma step_SrvDestroy s : Inv s -> step_ok s SrvDestroy.
 Proof.
   intros [[G HC] HH]. unfold step_ok, step. destruct (s_srv s) eqn:Hsrv; [|exact I]. cbn [negb andb].
   destruct (has_task is_remove s || has_task is_force s) eqn:Eg; [exact I|]. apply orb_false_iff in Eg as [Enr Enf].
-  assert (HS : SInv s 0).
-  { split; [exact G|]. split; [exact Hsrv|]. split; [exact Enr|]. split; [exact Enf|].
-    intros c1 k1 Hg1. split; [lia|]. intros _. apply HC, Hg1. }
-  destruct (srv_destroy_from_inv (length (s_conns s)) s 0 HS) as (s1 & o1 & E1 & HI1); [lia|].
-  destruct (io_idle s); [|exact I]. cbn [negb].
-  rewrite E1. cbn [bind ret]. rewrite app_nil_r. apply finish_ok, set_stop_inv0, HI1.
+  destruct (next_entry (s_conns s) 0) as [c|] eqn:En.
+  - (* one iteration *)
+    destruct (next_entry_some _ _ _ En) as (k & Hk & He & _). rewrite Nat.sub_0_r in Hk.
+    apply is_entry_spec in He as (Ha & Hcb & Hm).
+    pose proof (set_dying_inv0 s true (conj G HC)) as HI1.
+    destruct (srv_hand_inv (set_dying s true) c k HI1 Hsrv Enr Enf Hk Ha Hcb Hm) as (s1 & o1 & E1 & HI2).
+    unfold srv_hand. change (getc (set_dying s true) c) with (nth_error (s_conns s) c). rewrite Hk.
+    cbv zeta in E1. unfold unmapped in E1. rewrite Hcb in E1. rewrite Hcb. rewrite E1. apply finish_ok, HI2.
+  - (* the body is over: the members die *)
+    apply finish_ok. apply set_stop_inv0, set_dying_inv0.
+    split; [destruct G as [G1 Gr G2 G3 G4]; constructor; auto|].
+    intros c k Hg. change (getc (set_srv s false) c) with (getc s c) in Hg.
+    apply (cinv_srv_off s c k (HC c k Hg) Hsrv).
+    + apply (has_task_false s is_remove (isR c) Enr (isR_remove c)).
+    + intros Hx. apply is_entry_spec in Hx. rewrite (next_entry_none _ _ En c k Hg) in Hx. discriminate.
 Qed.
 
 (* ==== QInv is an invariant: what every op does to the queues of the io loops ========================= *)
@@ -3061,22 +3039,17 @@ Qed.
 
 Lemma agood_accept s : agood s (accept s).
 Proof.
-  unfold accept. destruct (negb (s_srv s)) eqn:Hs; [exact I|]. apply negb_false_iff in Hs.
+  unfold accept. destruct (negb (s_srv s) || s_dying s) eqn:Hs; [exact I|]. apply orb_false_iff in Hs as [Hs _]. apply negb_false_iff in Hs.
   match goal with |- agood s (if ?b then establish ?x _ _ else _) => destruct b; [apply (agood_weaken s x); [apply arel_same; reflexivity|apply agood_establish]|] end.
   cbn [ret agood]. match goal with |- arel s (enq ?x _ _) => apply (arel_trans s x); [apply arel_same; reflexivity|] end.
   apply arel_enq_srv. exact Hs.
 Qed.
 
-Lemma agood_srv_destroy_from n : forall s c, s_srv s = true -> agood s (srv_destroy_from s n c).
+Lemma agood_srv_hand s c : s_srv s = true -> agood s (srv_hand s c).
 Proof.
-  induction n as [|n IH]; intros s c Hs; cbn [srv_destroy_from]; [apply arel_refl|].
-  destruct (getc s c) as [k|]; [|apply arel_refl]. destruct (k_ccb k); try (apply IH, Hs).
-  destruct (k_mapped k && k_alive k); [|apply IH, Hs].
-  apply agood_bind.
-  - destruct (k_loop k =? 0).
-    + eapply agood_weaken; [apply arel_put|apply agood_connect_destroyed].
-    + cbn [ret agood]. apply arel_put_enq. left. exact Hs.
-  - intros s1 (A & _). apply IH. congruence.
+  intros Hs. unfold srv_hand. destruct (getc s c) as [k|]; [|exact I]. destruct (k_loop k =? 0).
+  - eapply agood_weaken; [apply arel_put|apply agood_connect_destroyed].
+  - cbn [ret agood]. apply arel_put_enq. left. exact Hs.
 Qed.
 
 Lemma agood_cli_connect s : agood s (cli_connect s).
@@ -3122,8 +3095,8 @@ Lemma agood_ev_step s c e : cl0 s -> agood s (ev_step true s c e).
 Proof.
   intros Hcl. unfold ev_step. destruct (getc s c) as [k|] eqn:Hg; [|exact I].
   match goal with |- agood s (if ?b then _ else _) => destruct b; [exact I|] end.
-  assert (Hsv : (match k_ccb k with CbServer => negb (s_srv s) | CbClient => negb (s_cli s) | CbDetail => false end) = false -> sv s c).
-  { intros Ho k0 Hk0 Hcb. rewrite Hg in Hk0. injection Hk0 as <-. rewrite Hcb in Ho. apply negb_false_iff, Ho. }
+  assert (Hsv : (match k_ccb k with CbServer => negb (s_srv s) || negb (k_mapped k) | CbClient => negb (s_cli s) | CbDetail => false end) = false -> sv s c).
+  { intros Ho k0 Hk0 Hcb. rewrite Hg in Hk0. injection Hk0 as <-. rewrite Hcb in Ho. apply orb_false_iff in Ho as [Ho _]. apply negb_false_iff, Ho. }
   destruct e.
   - destruct (k_rd k); [apply arel_refl|exact I].
   - destruct (k_rd k); [|exact I]. cbn [andb]. match goal with |- agood s (if ?b then _ else _) => destruct b eqn:Eo; [exact I|apply (agood_handle_close s _ c Hcl (Hsv eq_refl))] end.
@@ -3197,12 +3170,8 @@ Qed.
 
 Lemma qinv_arel s s' : QInv s -> arel s s' -> QInv s'.
 Proof.
-  intros (Q1 & Q2 & Q3) (A1 & A2 & A3). split; [|split].
+  intros (Q1 & Q3) (A1 & A2 & A3). split.
   - rewrite A1, A2. exact Q1.
-  - intros Hs l v' Hl Hv' Hid. rewrite A1 in Hs. specialize (A3 l). rewrite Hv' in A3.
-    destruct (getl s l) as [v|] eqn:Hv; [|contradiction]. destruct A3 as (a1 & a2 & a3 & ex & a4 & a5).
-    assert (Hid0 : q_idle v = false) by (unfold q_idle in *; rewrite <- a1, <- a2, <- a3; exact Hid).
-    rewrite a4, forallb_app, (Q2 Hs l v Hl Hv Hid0), (proj2 (a5 Hs) Hl). reflexivity.
   - intros Hs. rewrite A1 in Hs. apply has_task_false_iff. intros l v' t Hv' Ht. specialize (A3 l). rewrite Hv' in A3.
     destruct (getl s l) as [v|] eqn:Hv; [|contradiction]. destruct A3 as (a1 & a2 & a3 & ex & a4 & a5).
     unfold q_all in Ht. rewrite a1, a2, a4 in Ht. rewrite !in_app_iff in Ht.
@@ -3212,42 +3181,13 @@ Proof.
     + destruct (a5 Hs) as [a6 _]. rewrite forallb_forall in a6. specialize (a6 t Hc). unfold noRm in a6. apply negb_true_iff in a6. exact a6.
 Qed.
 
-Lemma qinv_set_loop s l v v' : QInv s -> getl s l = Some v ->
-  (s_srv s = false -> l <> 0 -> q_idle v' = false -> forallb noED (q_pend v') = true) ->
-  (forall t, In t (q_all v') -> In t (q_all v)) ->
-  QInv (set_loop s l v').
+Lemma qinv_set_loop s l v v' : QInv s -> getl s l = Some v -> (forall t, In t (q_all v') -> In t (q_all v)) -> QInv (set_loop s l v').
 Proof.
-  intros (Q1 & Q2 & Q3) Hv Hn Hsub. split; [exact Q1|]. split.
-  - intros Hs l1 v1 Hl1 Hv1 Hid. destruct (Nat.eq_dec l l1) as [<-|Hne].
-    + rewrite (getl_set_loop_eq s l v v' Hv) in Hv1. injection Hv1 as <-. apply (Hn Hs Hl1 Hid).
-    + rewrite getl_set_loop_neq in Hv1 by exact Hne. apply (Q2 Hs l1 v1 Hl1 Hv1 Hid).
-  - intros Hs. apply has_task_false_iff. intros l1 v1 t Hv1 Ht. pose proof (proj1 (has_task_false_iff s is_remove) (Q3 Hs)) as H.
-    destruct (Nat.eq_dec l l1) as [<-|Hne].
-    + rewrite (getl_set_loop_eq s l v v' Hv) in Hv1. injection Hv1 as <-. apply (H l v t Hv (Hsub t Ht)).
-    + rewrite getl_set_loop_neq in Hv1 by exact Hne. apply (H l1 v1 t Hv1 Ht).
-Qed.
-
-Lemma io_idle_spec s l v : io_idle s = true -> l <> 0 -> getl s l = Some v -> q_idle v = true.
-Proof.
-  unfold io_idle, getl. intros H Hl Hv. destruct l as [|l]; [congruence|]. destruct (s_loops s) as [|x ls]; [discriminate|].
-  cbn in *. rewrite forallb_forall in H. apply H. eapply nth_error_In, Hv.
-Qed.
-
-(* ~TcpServer's body queues connectDestroyed only *)
-Lemma srv_destroy_from_norm n : forall s c, has_task is_remove s = false ->
-  match srv_destroy_from s n c with Ok (s', _) => has_task is_remove s' = false | _ => True end.
-Proof.
-  induction n as [|n IH]; intros s c H; cbn [srv_destroy_from ret]; [exact H|].
-  destruct (getc s c) as [k|]; [|exact H]. destruct (k_ccb k); try (apply IH, H).
-  destruct (k_mapped k && k_alive k); [|apply IH, H]. set (s1 := put s c _).
-  assert (H1 : has_task is_remove s1 = false) by exact H.
-  destruct (k_loop k =? 0).
-  - unfold connect_destroyed. destruct (getc s1 c) as [k1|]; [|exact I]. destruct (negb (k_alive k1)); [exact I|].
-    destruct (negb (0 =? k_loop k1)); [exact I|].
-    destruct (k_closable k1); (match goal with |- context [chan_remove ?x] => destruct (chan_remove x) end); try exact I;
-      cbn [emit bind]; (match goal with |- context [srv_destroy_from ?x n (S c)] => pose proof (IH x (S c) H1) as Hr; destruct (srv_destroy_from x n (S c)) as [[s2 o2]| |] end); auto.
-  - cbn [ret bind]. pose proof (IH (enq s1 (k_loop k) (TDestroy c)) (S c) (has_task_enq s1 (k_loop k) (TDestroy c) is_remove H1 eq_refl)) as Hr.
-    destruct (srv_destroy_from (enq s1 (k_loop k) (TDestroy c)) n (S c)) as [[s2 o2]| |]; auto.
+  intros (Q1 & Q3) Hv Hsub. split; [exact Q1|].
+  intros Hs. apply has_task_false_iff. intros l1 v1 t Hv1 Ht. pose proof (proj1 (has_task_false_iff s is_remove) (Q3 Hs)) as H.
+  destruct (Nat.eq_dec l l1) as [<-|Hne].
+  - rewrite (getl_set_loop_eq s l v v' Hv) in Hv1. injection Hv1 as <-. apply (H l v t Hv (Hsub t Ht)).
+  - rewrite getl_set_loop_neq in Hv1 by exact Hne. apply (H l1 v1 t Hv1 Ht).
 Qed.
 
 Lemma step_qinv s o : Inv s -> QInv s -> match step true s o with Ok (s', _) => QInv s' | _ => True end.
@@ -3258,38 +3198,30 @@ Proof.
   - (* SrvDestroy *)
     cbn [step]. destruct (s_srv s) eqn:Hs; [|exact I]. cbn [negb andb].
     destruct (has_task is_remove s || has_task is_force s) eqn:Eg; [exact I|]. apply orb_false_iff in Eg as [Enr _].
-    destruct (io_idle s) eqn:Hio; [|exact I]. cbn [negb].
-    pose proof (agood_srv_destroy_from (length (s_conns s)) s 0 Hs) as Ha.
-    pose proof (srv_destroy_from_norm (length (s_conns s)) s 0 Enr) as Hnr.
-    destruct (srv_destroy_from s (length (s_conns s)) 0) as [[s1 o1]| |]; [|exact I|exact I]. cbn [bind ret].
-    set (s2 := set_stop (set_srv s1 false) (if s_nio s =? 0 then 0 else 1)).
-    pose proof (agood_finish s2 (Ok (s2, o1 ++ [])) 0 (arel_refl s2)) as Hf.
-    destruct (finish (Ok (s2, o1 ++ [])) 0) as [[s3 o3]| |]; [|exact I|exact I]. cbn in Hf.
-    assert (HQ2 : QInv s2).
-    { split; [intros _; reflexivity|]. split; [|intros _; exact Hnr].
-      intros _ l v2 Hl Hv2 Hid. exfalso. change (getl s2 l) with (getl s1 l) in Hv2.
-      destruct Ha as (_ & _ & A3). specialize (A3 l). rewrite Hv2 in A3.
-      destruct (getl s l) as [v|] eqn:Hv; [|contradiction]. destruct A3 as (a1 & a2 & a3 & _).
-      pose proof (io_idle_spec s l v Hio Hl Hv) as Hi. unfold q_idle in *. rewrite a1, a2, a3, Hi in Hid. discriminate. }
-    apply (qinv_arel s2 s3 HQ2 Hf).
+    destruct (next_entry (s_conns s) 0) as [c|].
+    + pose proof (agood_finish _ _ 0 (agood_srv_hand (set_dying s true) c Hs)) as Hf.
+      destruct (finish (srv_hand (set_dying s true) c) 0) as [[s1 o1]| |]; [|exact I|exact I].
+      apply (qinv_arel (set_dying s true) s1); [exact HQ|exact Hf].
+    + set (s2 := set_stop (set_dying (set_srv s false) false) (if s_nio s =? 0 then 0 else 1)).
+      pose proof (agood_finish s2 (ret s2) 0 (arel_refl s2)) as Hf.
+      destruct (finish (ret s2) 0) as [[s3 o3]| |]; [|exact I|exact I].
+      apply (qinv_arel s2 s3); [|exact Hf]. split; [intros _; reflexivity|intros _; exact Enr].
   - (* Swap *)
     cbn [step]. destruct (getl s l) as [v|] eqn:Hv; [|exact I]. destruct (q_idle v && negb (gone s l)) eqn:Eid; [|exact I]. cbn [ret].
     apply andb_prop in Eid as [Eid _]. unfold q_idle in Eid. destruct (q_batch v) eqn:Eb; [|discriminate]. destruct (q_spent v) eqn:Es; [|discriminate].
-    apply (qinv_set_loop s l v _ HQ Hv); [reflexivity|].
+    apply (qinv_set_loop s l v _ HQ Hv).
     intros t. unfold q_all. cbn [q_pend q_batch q_spent]. rewrite Eb, Es. cbn [app]. rewrite app_nil_r. auto.
   - (* Run *)
     cbn [step]. destruct (getl s l) as [v|] eqn:Hv; [|exact I]. destruct (q_batch v) as [|t rest] eqn:Hb; [exact I|].
     fold (popped v t rest). fold (set_loop s l (popped v t rest)).
-    assert (HQ1 : QInv (set_loop s l (popped v t rest))).
-    { apply (qinv_set_loop s l v _ HQ Hv); [|apply (popped_in v t rest Hb)].
-      intros Hs Hl _. cbn [popped q_pend]. apply (proj1 (proj2 HQ) Hs l v Hl Hv). unfold q_idle. rewrite Hb. reflexivity. }
+    assert (HQ1 : QInv (set_loop s l (popped v t rest))) by (apply (qinv_set_loop s l v _ HQ Hv), (popped_in v t rest Hb)).
     assert (Hsv : forall c, t = TForceClose c -> forall k, getc (set_loop s l (popped v t rest)) c = Some k -> k_closable k = true -> k_ccb k = CbServer -> s_srv s = true).
     { intros c -> k Hg Ecl Hcb. change (getc s c = Some k) in Hg. pose proof (proj2 HI c k Hg) as HCk.
       assert (Hin : In (TForceClose c) (q_all v)) by (unfold q_all; rewrite Hb; apply in_or_app; right; left; reflexivity).
       destruct (gi_placed s (proj1 HI) l v _ Hv Hin) as [_ [_ (k1 & Hk1 & Hl1 & _)]]. cbn [task_conn] in Hk1. rewrite Hg in Hk1. injection Hk1 as <-.
       assert (Hh : holds c (TForceClose c) = true) by (unfold holds; cbn; rewrite Nat.eqb_refl; reflexivity).
       pose proof (strong_alive s l v _ c k HI Hv Hin Hh Hg) as Ha.
-      destruct (phase_up_cases s c k (ci_phase s c k HCk Ha) (proj1 (closable_up_k k) Ecl)) as (_ & _ & _ & [(_ & _ & B)|[(_ & _ & _ & _ & B)|(_ & _ & B & _)]]).
+      destruct (phase_up_cases s c k (ci_phase s c k HCk Ha) (proj1 (closable_up_k k) Ecl)) as (_ & _ & _ & [(_ & _ & B)|[(_ & _ & _ & B)|(_ & _ & B & _)]]).
       - unfold owner_alive in B. rewrite Hcb in B. exact B.
       - exfalso. rewrite Hl1, (loop_todo_pop s l v _ rest Hv Hb) in B. cbn [first_life] in B. unfold life_of in B. cbn in B. rewrite Nat.eqb_refl in B. discriminate.
       - congruence. }
@@ -3299,18 +3231,18 @@ Proof.
   - (* EndBatch *)
     cbn [step]. destruct (getl s l) as [v|] eqn:Hv; [|exact I]. destruct (q_batch v) eqn:Hb; [|exact I].
     destruct (negb (q_drain v)); [exact I|]. destruct (quitting s l) eqn:Eq.
-    + destruct (true && outlived s l); [exact I|]. cbn [ret].
+    + destruct (true && negb (forallb no_handoff (q_pend v))); [exact I|]. destruct (true && outlived s l); [exact I|]. cbn [ret].
       change (set_loops s (upd (s_loops s) l (mkLq [] [] [] false))) with (set_loop s l (mkLq [] [] [] false)).
       set (s2 := set_stop (set_loop s l (mkLq [] [] [] false)) (S l)).
       assert (HQ2 : QInv s2).
       { destruct (quitting_spec s l Eq) as [Hl0 Hst]. pose proof (proj1 HQ) as Q1.
-        destruct (qinv_set_loop s l v (mkLq [] [] [] false) HQ Hv) as (_ & R2 & R3); [reflexivity|intros t []|].
-        split; [intros _; apply Q1; lia|]. split; [exact R2|exact R3]. }
+        destruct (qinv_set_loop s l v (mkLq [] [] [] false) HQ Hv) as (_ & R3); [intros t []|].
+        split; [intros _; apply Q1; lia|exact R3]. }
       pose proof (agood_finish s2 (ret s2) l (arel_refl s2)) as Hf.
       destruct (finish (ret s2) l) as [[s3 o3]| |]; [|exact I|exact I]. apply (qinv_arel s2 s3 HQ2 Hf).
     + cbn [ret]. fold (set_loop s l (mkLq (q_pend v) [] [] false)). set (s2 := set_loop s l (mkLq (q_pend v) [] [] false)).
       assert (HQ2 : QInv s2).
-      { apply (qinv_set_loop s l v _ HQ Hv); [intros _ _ Hx; discriminate Hx|].
+      { apply (qinv_set_loop s l v _ HQ Hv).
         intros t. unfold q_all. cbn [q_pend q_batch q_spent]. rewrite Hb. cbn [app]. intros Ht. apply in_or_app. right. exact Ht. }
       pose proof (agood_finish s2 (ret s2) l (arel_refl s2)) as Hf.
       destruct (finish (ret s2) l) as [[s3 o3]| |]; [|exact I|exact I]. apply (qinv_arel s2 s3 HQ2 Hf).
@@ -3321,7 +3253,7 @@ Definition Inv2 (s : sys) : Prop := Inv s /\ QInv s.
 
 Lemma init_inv2 nio readd : Inv2 (init_sys nio readd).
 Proof.
-  split; [apply init_inv|]. split; [intros H; exfalso; apply H; reflexivity|]. split; discriminate.
+  split; [apply init_inv|]. split; [intros H; exfalso; apply H; reflexivity|discriminate].
 Qed.
 
 Theorem step_strict_ok s o : Inv s -> QInv s -> step_ok s o.
@@ -3474,15 +3406,16 @@ Qed.
 Theorem S02_pool_exit_destroys : forall s l s' obs, sreach s -> quitting s l = true -> step true s (EndBatch l) = Ok (s', obs) ->
   s_stop s' = S l /\ forall c k', getc s' c = Some k' -> k_loop k' = l -> k_alive k' = false.
 Proof.
-  intros s l s' obs Hr Eq H. destruct (sreach_inv2 s Hr) as [[HI HH] (Q1 & Q2 & Q3)].
+  intros s l s' obs Hr Eq H. destruct (sreach_inv2 s Hr) as [[HI HH] (Q1 & Q3)].
   destruct (quitting_spec s l Eq) as [Hl0 Hst]. assert (Hsrv : s_srv s = false) by (apply Q1; lia).
   cbn [step] in H. destruct (getl s l) as [v|] eqn:Hv; [|discriminate]. destruct (q_batch v) eqn:Hb; [|discriminate].
   destruct (q_drain v) eqn:Edr; [|discriminate]. cbn [negb] in H. rewrite Eq in H. cbn [andb] in H.
+  destruct (forallb no_handoff (q_pend v)) eqn:Eno; [|discriminate]. cbn [negb] in H.
   destruct (outlived s l) eqn:Eout; [discriminate|].
   change (set_loops s (upd (s_loops s) l (mkLq [] [] [] false))) with (set_loop s l (mkLq [] [] [] false)) in H.
   set (s1 := set_loop s l (mkLq [] [] [] false)) in *. set (s2 := set_stop s1 (S l)) in *.
   assert (HI2 : Inv0 s2).
-  { apply set_stop_inv0. apply (exit_inv0 s l v HI Hv Hl0 Hb). apply (Q2 Hsrv l v Hl0 Hv). unfold q_idle. rewrite Hb, Edr. destruct (q_spent v); reflexivity. }
+  { apply set_stop_inv0. apply (exit_inv0 s l v HI Hv Hl0 Hb). exact Eno. }
   destruct (finish_inv s2 l [] HI2) as (s3 & d & E & HI3 & _ & _ & Hloops & Hcalls & _). unfold ret in H.
   rewrite E in H. injection H as <- _. pose proof (finish_fst s2 [] l s3 _ E) as Efst.
   split.
@@ -3692,21 +3625,18 @@ Proof. intros c k1 H. exists k1. rewrite getc_add_old by (eapply getc_lt, H). au
 
 Lemma good_accept s : good s (accept s).
 Proof.
-  unfold accept. destruct (negb (s_srv s)); [exact I|].
+  unfold accept. destruct (negb (s_srv s) || s_dying s); [exact I|].
   match goal with |- good s (if ?b then establish ?s1 0 ?c else _) => assert (L : lk s s1) by apply lk_add end.
   destruct (_ =? 0).
   - eapply good_weaken; [exact L|apply good_establish].
   - apply good_ret. eapply lk_trans; [exact L|apply lk_enq].
 Qed.
 
-Lemma good_srv_destroy_from n : forall s c, good s (srv_destroy_from s n c).
+Lemma good_srv_hand s c : good s (srv_hand s c).
 Proof.
-  induction n as [|n IH]; intros s c; cbn [srv_destroy_from]; [apply good_ret, lk_refl|].
-  destruct (getc s c) as [k|] eqn:Hg; [|apply good_ret, lk_refl].
-  destruct (k_ccb k); try apply IH. destruct (k_mapped k && k_alive k); [|apply IH].
-  assert (L : lk s (put s c (set_own k CbServer false (k_urefs k) (k_delayed k)))).
+  unfold srv_hand. destruct (getc s c) as [k|] eqn:Hg; [|exact I].
+  assert (L : lk s (put s c (set_own k (k_ccb k) false (k_urefs k) (k_delayed k)))).
   { apply lk_put. intros k0 Hk0. rewrite Hg in Hk0. injection Hk0 as <-. reflexivity. }
-  apply good_bind; [|intros s1; apply IH].
   destruct (k_loop k =? 0).
   - eapply good_weaken; [exact L|apply good_connect_destroyed].
   - apply good_ret. eapply lk_trans; [exact L|apply lk_enq].
@@ -3780,15 +3710,16 @@ Lemma good_step strict s o : good s (step strict s o).
 Proof.
   destruct o; cbn [step].
   - apply good_finish, good_accept.
-  - destruct (negb (s_srv s)); [exact I|]. destruct (_ && _); [exact I|]. destruct (_ && _); [exact I|]. apply good_finish.
-    apply good_bind; [apply good_srv_destroy_from|]. intros s1. apply good_ret, lk_same_conns. reflexivity.
+  - destruct (negb (s_srv s)); [exact I|]. destruct (_ && _); [exact I|]. destruct (next_entry (s_conns s) 0) as [c0|].
+    + apply good_finish. eapply good_weaken; [|apply good_srv_hand]. apply lk_same_conns. reflexivity.
+    + apply good_finish, good_ret, lk_same_conns. reflexivity.
   - apply good_finish, good_cli_connect.
   - apply good_finish, good_cli_destroy.
   - destruct (getl s l) as [v|]; [|exact I]. destruct (q_idle v && negb (gone s l)); [|exact I]. apply good_ret, lk_same_conns. reflexivity.
   - destruct (getl s l) as [v|]; [|exact I]. destruct (q_batch v) as [|t rest]; [exact I|]. apply good_finish.
     eapply good_weaken; [|apply good_run_task]. apply lk_same_conns. reflexivity.
   - destruct (getl s l) as [v|]; [|exact I]. destruct (q_batch v); [|exact I]. destruct (negb (q_drain v)); [exact I|].
-    destruct (quitting s l); [destruct (_ && _); [exact I|]|]; apply good_finish, good_ret, lk_same_conns; reflexivity.
+    destruct (quitting s l); [destruct (_ && _); [exact I|]; destruct (_ && _); [exact I|]|]; apply good_finish, good_ret, lk_same_conns; reflexivity.
   - destruct (getc s c) as [k|]; [|exact I]. apply good_finish, good_ev_step.
   - destruct (getc s c) as [k|] eqn:Hg; [|exact I]. destruct (k_delayed k); [exact I|]. destruct (negb _); [exact I|].
     apply good_finish, good_ret.
@@ -3859,9 +3790,9 @@ Definition count_down (c : nat) (o : list obs) : nat :=
 (* the io loop of the destroyed server takes its last drain and leaves (join() returns, ~TcpServer returns, the server is
    freed) before the base loop runs the hop *)
 Definition w_server_lifetime : list op :=
-  [Accept; Swap 1; Run 1 true true; EndBatch 1; Ev 0 KEof; SrvDestroy; Swap 1; Run 1 true true; EndBatch 1; Swap 0; Run 0 true true].
+  [Accept; Swap 1; Run 1 true true; EndBatch 1; Ev 0 KEof; SrvDestroy; SrvDestroy; Swap 1; Run 1 true true; EndBatch 1; Swap 0; Run 0 true true].
 Definition w_server_lifetime2 : list op :=
-  [Accept; Swap 1; Run 1 true true; EndBatch 1; LForceClose 0; SrvDestroy; Swap 1; Run 1 true true; Run 1 true true; EndBatch 1;
+  [Accept; Swap 1; Run 1 true true; EndBatch 1; LForceClose 0; SrvDestroy; SrvDestroy; Swap 1; Run 1 true true; Run 1 true true; EndBatch 1;
    Swap 0; Run 0 true true].
 Definition w_raw_functor : list op :=
   [Accept; XBegin 1 0 AStartRead; Ev 0 KEof; Swap 0; Run 0 true true; XEnq 1 false; EndBatch 0; Swap 0; Run 0 true true].
@@ -3902,43 +3833,55 @@ Lemma W_f13 : run false (init_sys 0 false) w_f13 = Fault /\ run true (init_sys 0
 Proof. repeat split; try (vm_compute; reflexivity). vm_compute. eexists _, _. split; reflexivity. Qed.
 
 (* with the fixed poller (F-15) a registered descriptor always has interest: the HUP hypothesis is not needed *)
-(* H7: ~TcpServer while an io loop is inside a drain.  The hand-off (connectDestroyed bound with the last TcpConnectionPtr)
-   goes to pendingFunctors_ behind the batch, ~EventLoopThread stores quit_, the io thread finishes its batch, leaves loop()
-   and the EventLoop is destroyed with the functor still queued: ~TcpConnection runs while kConnected (UP was delivered,
-   DOWN never is, the channel is destroyed while registered).  a: the io thread is running a write-complete callback;
-   b: it is about to run the connectEstablished of a connection accepted just before; c: it is inside a drain of an empty batch *)
+(* H7 / F-25: ~TcpServer with io threads.  ~TcpServer is a loop of hand-offs (one SrvDestroy step per live entry of
+   connections_, one more for "the members die": threadPool_ -> quit(), join()).  A hand-off that reaches pendingFunctors_ of
+   an io loop after that loop's last swap is destroyed unrun with the EventLoop when the loop sees quit_: ~TcpConnection runs
+   while kConnected (UP was delivered, DOWN never is, the channel is destroyed while registered).
+   a: the io thread is running a write-complete callback when ~TcpServer runs; b: it is about to run the connectEstablished of a
+   connection accepted just before; c: it is inside a drain of an empty batch;
+   d (REVIEW_E-1): NOTHING is going on when ~TcpServer starts - two connections on one io loop, the io thread in poll(): the
+   wakeup() of the first hand-off lets it swap a batch with that hand-off only; the second lands behind the batch *)
 Definition w_pool_a : list op :=
-  [Accept; Swap 1; Run 1 true true; EndBatch 1; LSend 0 true true; Swap 1; SrvDestroy; Run 1 true true; EndBatch 1].
-Definition w_pool_b : list op := [Accept; Swap 1; SrvDestroy; Run 1 true true; EndBatch 1].
-Definition w_pool_c : list op := [Accept; Swap 1; Run 1 true true; EndBatch 1; Swap 1; SrvDestroy; EndBatch 1].
+  [Accept; Swap 1; Run 1 true true; EndBatch 1; LSend 0 true true; Swap 1; SrvDestroy; SrvDestroy; Run 1 true true; EndBatch 1].
+Definition w_pool_b : list op := [Accept; Swap 1; SrvDestroy; SrvDestroy; Run 1 true true; EndBatch 1].
+Definition w_pool_c : list op := [Accept; Swap 1; Run 1 true true; EndBatch 1; Swap 1; SrvDestroy; SrvDestroy; EndBatch 1].
+Definition w_pool_d : list op :=
+  [Accept; Accept; Swap 1; Run 1 true true; Run 1 true true; EndBatch 1;
+   SrvDestroy; Swap 1; Run 1 true true; SrvDestroy; SrvDestroy; EndBatch 1].
 
 Lemma W_pool :
-  run false (init_sys 1 false) w_pool_a = Fault /\ run false (init_sys 1 false) w_pool_b = Fault /\ run false (init_sys 1 false) w_pool_c = Fault /\
-  run true (init_sys 1 false) w_pool_a = Rejected /\ run true (init_sys 1 false) w_pool_b = Rejected /\ run true (init_sys 1 false) w_pool_c = Rejected /\
-  (* up to the last op nothing is wrong: UP delivered, no DOWN, the connection held by the functor that just ran and by the
-     queued connectDestroyed only, the loop told to quit *)
-  (exists s o k v, run false (init_sys 1 false) (firstn 8 w_pool_a) = Ok (s, o) /\ o = [OUp 1 0] /\ getc s 0 = Some k /\ k_st k = Connected /\
-     k_alive k = true /\ holders s 0 = 2 /\ getl s 1 = Some v /\ q_pend v = [TDestroy 0] /\ q_batch v = [] /\ q_drain v = true /\ s_stop s = 1 /\
-     step false s (EndBatch 1) = Fault) /\
-  (* it is H7 that rejects it: the prefix is accepted under the hypotheses, H2's guard is silent, the io loop is inside a drain *)
-  (exists s o, run true (init_sys 1 false) (firstn 6 w_pool_a) = Ok (s, o) /\ has_task is_remove s = false /\ has_task is_force s = false /\
-     io_idle s = false /\ step true s SrvDestroy = Rejected) /\
-  (* the same ops with the destruction one step later (the io thread back in poll()): UP, DOWN, destroyed *)
+  run false (init_sys 1 false) w_pool_a = Fault /\ run false (init_sys 1 false) w_pool_b = Fault /\
+  run false (init_sys 1 false) w_pool_c = Fault /\ run false (init_sys 1 false) w_pool_d = Fault /\
+  run true (init_sys 1 false) w_pool_a = Rejected /\ run true (init_sys 1 false) w_pool_b = Rejected /\
+  run true (init_sys 1 false) w_pool_c = Rejected /\ run true (init_sys 1 false) w_pool_d = Rejected /\
+  (* d: every op but the last is accepted under the hypotheses (when ~TcpServer starts every loop is in poll(), nothing is in
+     flight); then: two UPs, one DOWN, connection 1 still kConnected and held by the queued connectDestroyed only, quit_ stored;
+     the only thing the hypotheses refuse is the exit itself (H7), and without them it is the Fault *)
+  (exists s0 o0, run true (init_sys 1 false) (firstn 6 w_pool_d) = Ok (s0, o0) /\ io_idle s0 = true /\
+     has_task is_remove s0 = false /\ has_task is_force s0 = false /\ s_calls s0 = []) /\
+  (exists s o k v, run true (init_sys 1 false) (firstn 11 w_pool_d) = Ok (s, o) /\ o = [OUp 1 0; OUp 1 1; ODown 1 0] /\
+     getc s 1 = Some k /\ k_st k = Connected /\ k_alive k = true /\ holders s 1 = 1 /\ getl s 1 = Some v /\
+     q_pend v = [TDestroy 1] /\ q_batch v = [] /\ q_drain v = true /\ s_stop s = 1 /\
+     step true s (EndBatch 1) = Rejected /\ step false s (EndBatch 1) = Fault) /\
+  (* the same ops when the io thread does not swap before the last hand-off: UP, UP, DOWN, DOWN, both destroyed *)
   (exists s o, run true (init_sys 1 false)
-     [Accept; Swap 1; Run 1 true true; EndBatch 1; LSend 0 true true; Swap 1; Run 1 true true; EndBatch 1; SrvDestroy; Swap 1; Run 1 true true; EndBatch 1] = Ok (s, o) /\
-     o = [OUp 1 0; ODown 1 0; ODtor 1 0 true] /\ s_stop s = 2).
+     [Accept; Accept; Swap 1; Run 1 true true; Run 1 true true; EndBatch 1;
+      SrvDestroy; SrvDestroy; SrvDestroy; Swap 1; Run 1 true true; Run 1 true true; EndBatch 1] = Ok (s, o) /\
+     o = [OUp 1 0; OUp 1 1; ODown 1 0; ODown 1 1; ODtor 1 0 true; ODtor 1 1 true] /\ s_stop s = 2).
 Proof.
-  do 6 (split; [vm_compute; reflexivity|]).
-  split; [vm_compute; eexists _, _, _, _; repeat split|].
+  do 8 (split; [vm_compute; reflexivity|]).
   split; [vm_compute; eexists _, _; repeat split|].
+  split; [vm_compute; eexists _, _, _, _; repeat split|].
   vm_compute. eexists _, _. repeat split.
 Qed.
 
-(* H7 is the only thing strict mode adds to ~TcpServer besides H2 *)
-Lemma S02_H7_guard : forall s, s_srv s = true -> has_task is_remove s = false -> has_task is_force s = false ->
-  (io_idle s = false -> step true s SrvDestroy = Rejected) /\ (io_idle s = true -> step true s SrvDestroy = step false s SrvDestroy).
+(* H7 is exactly what strict mode adds to the exit of an io loop besides H8 *)
+Lemma S02_H7_guard : forall s l v, getl s l = Some v -> q_batch v = [] -> q_drain v = true -> quitting s l = true ->
+  (forallb no_handoff (q_pend v) = false -> step true s (EndBatch l) = Rejected) /\
+  (forallb no_handoff (q_pend v) = true -> outlived s l = false -> step true s (EndBatch l) = step false s (EndBatch l)).
 Proof.
-  intros s Hs Hr Hf. cbn [step]. rewrite Hs, Hr, Hf. cbn [negb andb orb]. split; intros H; rewrite H; reflexivity.
+  intros s l v Hv Hb Hd Hq. cbn [step]. rewrite Hv, Hb, Hd, Hq. cbn [negb andb]. split; intros H; rewrite H; [reflexivity|].
+  intros Ho. rewrite Ho. reflexivity.
 Qed.
 
 Lemma S02_inset_has_interest : forall s c k, sreach s -> s_readd s = false -> getc s c = Some k -> k_alive k = true ->
@@ -3954,7 +3897,7 @@ Qed.
 Definition ex_sys_ops : list op :=
   [Accept; Accept; CliConnect; Swap 1; Run 1 true true; EndBatch 1; Ev 0 KData; UGrab 0; XBegin 1 0 AShutdown; XStore 1; XEnq 1 true;
    Ev 0 KEof; Swap 0; Run 0 true true; EndBatch 0; Swap 1; Run 1 true true; Run 1 true true; EndBatch 1; UDrop 0;
-   Swap 2; Run 2 true true; EndBatch 2; LSend 1 false true; Ev 1 (KOut true true); SrvDestroy; Swap 2; Run 2 true true; Run 2 true true; EndBatch 2;
+   Swap 2; Run 2 true true; EndBatch 2; LSend 1 false true; Ev 1 (KOut true true); SrvDestroy; SrvDestroy; Swap 2; Run 2 true true; Run 2 true true; EndBatch 2;
    Swap 1; EndBatch 1; Swap 2; EndBatch 2; CliDestroy; Swap 0; Run 0 true true; EndBatch 0; Swap 0; Run 0 true true; EndBatch 0].
 
 Lemma ex_sys_run : exists s o, run true (init_sys 2 false) ex_sys_ops = Ok (s, o) /\
